@@ -21,6 +21,7 @@ import (
 	"bytes"
 	"crypto/sha1"
 	"encoding/binary"
+	"errors"
 	"fmt"
 	"hash"
 	"math"
@@ -252,6 +253,7 @@ func c07Alphabet(quick bool) []c07Elem {
 		out = append(out, c07Elem{name: u, url: u, cmp: false})
 	}
 	out = append(out, c07Elem{name: "api:ingest-session-cycle"})
+	out = append(out, c07Elem{name: "api:ingest-session-cycle:timesubs"})
 	_ = quick
 	return out
 }
@@ -276,6 +278,7 @@ type c07Writer struct {
 	buf  bytes.Buffer
 	code int
 	pts  bool
+	fail bool // the client has gone: every Write fails
 }
 
 func (w *c07Writer) Header() http.Header { return w.h }
@@ -294,12 +297,25 @@ func (w *c07Writer) Write(b []byte) (int, error) {
 	if w.code == 0 {
 		w.code = 200
 	}
+	if w.fail {
+		return 0, errors.New("write: broken pipe")
+	}
 	return w.buf.Write(b)
+}
+
+// c07Abort serves e to a client that has gone (every response write fails).
+func c07Abort(srv *Server, e c07Elem) {
+	if e.url == "" {
+		return
+	}
+	req := httptest.NewRequest("GET", e.url, nil)
+	req.RemoteAddr = "127.0.0.1:1234"
+	srv.Router.ServeHTTP(&c07Writer{h: http.Header{}, fail: true}, req)
 }
 
 func c07Serve(srv *Server, e c07Elem, pts bool) c07Resp {
 	if e.url == "" {
-		c07IngestCycle(srv)
+		c07IngestCycle(srv, strings.HasSuffix(e.name, ":timesubs"))
 		return c07Resp{}
 	}
 	req := httptest.NewRequest("GET", e.url, nil)
@@ -314,14 +330,18 @@ func c07Serve(srv *Server, e c07Elem, pts bool) c07Resp {
 
 // c07IngestCycle creates a step-mode ingest session, steps it once and deletes it (must run
 // under the scheduler; the receiver is C16's scripted transport).
-func c07IngestCycle(srv *Server) {
+func c07IngestCycle(srv *Server, timesubs bool) {
 	s := vrt.Cur()
 	if s == nil {
 		return
 	}
 	env := &c16Env{srv: srv}
 	c16Cur = &c16Recv{}
-	ss, err := env.create(s, c16Cfg{name: "number", mpd: "Manifest.mpd"}, "c07", c16P(610000), nil)
+	cfg := c16Cfg{name: "number", mpd: "Manifest.mpd"}
+	if timesubs {
+		cfg = c16Cfg{name: "number-timesubs", prefix: "timesubsstpp_en,sv/", mpd: "Manifest.mpd"}
+	}
+	ss, err := env.create(s, cfg, "c07", c16P(610000), nil)
 	if err != nil {
 		s.Fail("setup", "ingest cycle: "+err.Error())
 		return
@@ -544,6 +564,55 @@ func TestVerifC07(t *testing.T) {
 						t.Fatalf("engine: %s %s", f.Sig, f.Msg)
 					}
 					rep.Violate(clause, sig, f.Msg, map[string]any{"a": a.name, "b": b.name, "choices": f.Choices})
+				}
+			}
+		}
+	}
+
+	// ---- S2: a response that could not be written (client gone), then the same request twice and
+	// with its neighbour concurrently: resources handed back on the error path must not be shared
+	{
+		srv, err := c07NewServer()
+		if err != nil {
+			t.Fatalf("server: %v", err)
+		}
+		for i, e := range sigma {
+			if e.url == "" || !vh.Mine(i) {
+				continue
+			}
+			for _, j := range []int{i, (i + 1) % len(sigma)} {
+				b := sigma[j]
+				if b.url == "" {
+					continue
+				}
+				i, j, e, b := i, j, e, b
+				body := func(s *vrt.Sched) {
+					c07Abort(srv, e)
+					var ra, rb c07Resp
+					ha := s.Spawn("a", func() { ra = c07Serve(srv, e, true) })
+					hb := s.Spawn("b", func() { rb = c07Serve(srv, b, true) })
+					s.Join(ha, hb)
+					if e.cmp && !ra.eq(fresh[i]) {
+						s.Fail("C07.concurrent:response-depends-on-concurrency:after-aborted-response:"+c07Kind(e.name), fmt.Sprintf("%s answers %v while %s is served concurrently after a response to %s could not be written; alone it answers %v", e.name, ra, b.name, e.name, fresh[i]))
+					}
+					if b.cmp && !rb.eq(fresh[j]) {
+						s.Fail("C07.concurrent:response-depends-on-concurrency:after-aborted-response:"+c07Kind(b.name), fmt.Sprintf("%s answers %v while %s is served concurrently after a response to %s could not be written; alone it answers %v", b.name, rb, e.name, e.name, fresh[j]))
+					}
+				}
+				st := vrt.Explore(vrt.ExploreOpts{RunOpts: opts, Bound: 1, MaxExec: 2500, DeadlineUnix: rep.DeadlineUnix(), FreeCost: 1}, body)
+				rep.AddExecs(int64(st.Executions))
+				rep.AddStates(int64(st.Points))
+				rep.Hit("C07.concurrent")
+				for _, f := range st.Failures {
+					clause, sig := "C07.crash", f.Sig
+					switch {
+					case strings.HasPrefix(f.Sig, "race:"):
+						clause = "C07.race"
+					case strings.HasPrefix(f.Sig, "C07."):
+						p := strings.SplitN(f.Sig, ":", 2)
+						clause, sig = p[0], p[1]
+					}
+					rep.Violate(clause, sig, f.Msg, map[string]any{"aborted": e.name, "a": e.name, "b": b.name, "choices": f.Choices})
 				}
 			}
 		}
